@@ -499,6 +499,14 @@ def line_lifetime(P, R):
     R.floor('C08.MPT.2', 1, 'free sites of the line buffer')
 
 
+def _table_lookup(P, fn, callee):
+    """callee is a function of the program that looks the request table up (a wrapper of set_find on it)"""
+    t = P.direct_target(fn, callee) if callee else None
+    if t is None:
+        return False
+    return any(c.ev['args'] and is_var(c.ev['args'][0], uar.TABLE) for c in t.calls('set_find'))
+
+
 def junk_inert(P, R, rule='C08.GRD.1'):
     """GRD.1: dispatch calls receive either a freshly looked-up non-null request or a
     deliberate NULL; unknown ids leave the iteration before the dispatch."""
@@ -506,7 +514,7 @@ def junk_inert(P, R, rule='C08.GRD.1'):
     reqvar = None
     for s in fn.stores():
         rhs = s.ev.get('rhs')
-        if rhs and rhs.get('k') == 'callref' and rhs.get('callee') == 'set_find' and is_var(s.ev['lhs']):
+        if rhs and rhs.get('k') == 'callref' and is_var(s.ev['lhs']) and (rhs.get('callee') == 'set_find' or _table_lookup(P, fn, rhs.get('callee'))):
             reqvar = s.ev['lhs']['name']
             lookup = s
     if reqvar is None:
@@ -534,7 +542,7 @@ def junk_inert(P, R, rule='C08.GRD.1'):
     before, _, sin, bout = fn.forward('stale', on_event, on_edge)
     n = 0
     for s in fn.calls():
-        if any(is_var(a, reqvar) for a in s.ev['args']) and s.ev.get('callee') not in ('set_find',):
+        if any(is_var(a, reqvar) for a in s.ev['args']) and s.ev.get('callee') not in ('set_find',) and s.key != lookup.key:
             sts = before.get(s.key, set())
             ok = bool(sts) and sts <= {'null', 'found'}
             n += 1
@@ -708,6 +716,10 @@ def run(P, R, tier):
     c13.numeric_rules(P, R, c13.scope(P), prefix='C08')
     # ... and it is parsed with a NULL prefix-length output, which the parser must treat as optional everywhere
     c13.optional_outputs(P, R, c13.scope(P), 'C08.NULL.3')
+    # nothing outlives the line that produced it except what hangs off the request table: no handler parks a pointer
+    # (to a request, a line, a word) in static storage for a later line to pick up after its target is gone
+    from . import c07 as _c07
+    _c07.storage_audit(P, Remap(R, {'C07.WMC.1': 'C08.WMC.5'}, keys=('static-write', 'named:')))
     # every complete line that was read is dispatched in this wake-up: none dropped, none left waiting for unrelated traffic
     from . import c03 as _c03
     _c03.reader_drains(P, R, 'C08.MPT.5')
